@@ -129,9 +129,9 @@ func (w *world) measure(blk *block.Block, of *offer, tipIdx int) (attrs, error) 
 }
 
 type jobResult struct {
-	events  []map[string]any
-	skipped string
-	infra   string
+	events   []map[string]any
+	skipped  string
+	infra    string
 	panicked string
 }
 
@@ -280,7 +280,7 @@ func (w *world) runCase(id string, c *caseIn, mid int) (jr jobResult) {
 			"alt_acc": c.PredDesign.Acc, "alt_hdr": c.PredDesign.Hdr},
 		"obs": map[string]any{"blk_plus": int(after.blkH) - int(before.blkH), "tip_is_offer": after.tip == offered,
 			"hdrs_after": n.ids(after, offered, followerHash), "led_changed": ledDiff(before, after), "pool_changed": before.pool != after.pool,
-			"db_changed": dbDiff(before.db, after.db, offered), "ref_equal": refEq, "pool_size": n.pooled}}
+			"db_changed": dbDiff(before.db, after.db, offered, followerHash), "ref_equal": refEq, "pool_size": n.pooled}}
 	jr.events = append(jr.events, ev)
 	if acc && c.Case.Via == "block" {
 		return
